@@ -1,6 +1,7 @@
 package c05
 
 import (
+	"crypto/ecdsa"
 	"fmt"
 	feepkg "github.com/idena-network/idena-go/blockchain/fee"
 	"math/big"
@@ -78,6 +79,10 @@ var weightedTypes = func() []types.TxType {
 	return append(res, types.KillTx, types.UndelegateTx, types.CallContractTx, types.TerminateContractTx)
 }()
 
+// addresses the god address invited at the start of a history, per world
+var godInvitees = map[*sim.World][]common.Address{}
+var godExit = map[*sim.World]int{}
+
 func TestOnlySignerPays(t *testing.T) {
 	rapid.Check(t, func(t *rapid.T) {
 		opt := sim.Options{MinActors: 4, MaxActors: 10, Replicas: 1, MaxReplicas: 4, Steps: 30, MaxTxPerStep: 5}
@@ -85,6 +90,9 @@ func TestOnlySignerPays(t *testing.T) {
 			// some invited / candidate addresses that own stake and have no inviter link (genesis allocations; on a chain:
 			// the inviter terminated itself), and validated identities without a pool: the targets a stranger's
 			// termination transaction must not be able to touch
+			if p.Balances[0].Cmp(sim.Dna(2000)) < 0 {
+				p.Balances[0] = sim.Dna(2000) // the god address funds the zero address and its invitations
+			}
 			for i := range p.States {
 				switch {
 				case i > 0 && i%4 == 1:
@@ -108,6 +116,76 @@ func TestOnlySignerPays(t *testing.T) {
 				funding, _ := types.SignTx(&types.Transaction{Type: types.SendTx, AccountNonce: r0.AppState.NonceCache.GetNonce(w.God.Addr, 0) + 1, To: &zero, Amount: sim.Dna(300), MaxFee: sim.Dna(50)}, w.God.Key)
 				for _, r := range w.Replicas {
 					r.Pool.AddExternalTxs(validation.MempoolTx, sim.WireCopyTx(funding))
+				}
+			}
+			// an inviter with several invitees at once: the god address invites 0-5 fresh addresses in the first block
+			// (the invitation carries coins), they activate themselves and put a part of the coins at stake
+			r0 := w.Replicas[0]
+			offer := func(tx *types.Transaction, key *ecdsa.PrivateKey) {
+				// twice the current fee, as the generator does
+				ps := r0.ReadState()
+				netSize := ps.ValidatorsCache.NetworkSize()
+				tx.MaxFee = big.NewInt(1)
+				f := feepkg.CalculateFee(netSize, ps.State.FeePerGas(), tx)
+				if min := feepkg.CalculateFee(netSize, feepkg.GetFeePerGasForNetwork(netSize), tx); min.Cmp(f) > 0 {
+					f = min
+				}
+				tx.MaxFee = new(big.Int).Mul(f, big.NewInt(2))
+				signed, err := types.SignTx(tx, key)
+				if err != nil {
+					t.Fatalf("sign: %v", err)
+				}
+				for i, r := range w.Replicas {
+					if err := r.Pool.AddExternalTxs(validation.MempoolTx, sim.WireCopyTx(signed)); err != nil && i == 0 {
+						evid.Count("setup.refused." + sim.TxTypeNames[tx.Type] + "." + err.Error())
+					}
+				}
+			}
+			if len(h.Blocks) == 0 {
+				n := r0.AppState.NonceCache.GetNonce(w.God.Addr, 0) // (counts the zero-address funding above)
+				for k := rapid.SampledFrom([]int{0, 3, 1, 4, 2, 5}).Draw(t, "godInvitees"); k > 0; k-- {
+					n++
+					to := w.NewActor().Addr
+					godInvitees[w] = append(godInvitees[w], to)
+					offer(&types.Transaction{Type: types.InviteTx, AccountNonce: n, To: &to, Amount: sim.Dna(40)}, w.God.Key)
+				}
+			}
+			// ... and the inviter may leave: a validated god identity terminates itself at a drawn block (its invitees are
+			// released; what it signs afterwards is signed by a stranger)
+			if len(h.Blocks) == 0 && len(godInvitees[w]) > 0 {
+				godExit[w] = rapid.SampledFrom([]int{0, 5, 7, 0, 9, 12}).Draw(t, "inviterTerminatesItselfAtBlock")
+			}
+			if b := godExit[w]; b > 0 && len(h.Blocks) == b {
+				if st := r0.ReadState().State; st.GetIdentityState(w.God.Addr).NewbieOrBetter() {
+					offer(&types.Transaction{Type: types.KillTx, AccountNonce: r0.AppState.NonceCache.GetNonce(w.God.Addr, st.Epoch()) + 1, Epoch: st.Epoch()}, w.God.Key)
+					evid.Count("setup.inviter_terminates_itself")
+					godExit[w] = -b
+				}
+			}
+			for _, a := range godInvitees[w] {
+				x := w.ByAddr[a]
+				st := r0.ReadState().State
+				switch id := st.GetIdentity(a); {
+				case id.State == state.Invite && st.GetNonce(a) == 0:
+					offer(&types.Transaction{Type: types.ActivationTx, AccountNonce: 1, To: &a, Payload: x.Pub}, x.Key)
+				case id.State == state.Candidate && (id.Stake == nil || id.Stake.Sign() == 0) && st.GetNonce(a) == 1 && a[0]%4 != 0:
+					offer(&types.Transaction{Type: types.ReplenishStakeTx, AccountNonce: 2, To: &a, Amount: sim.Dna(int64(5 + a[1]%20))}, x.Key)
+				}
+			}
+			if gi := godInvitees[w]; len(gi) > 0 {
+				st := r0.ReadState().State
+				linked, stale := 0, 0
+				for _, a := range gi {
+					if inv := st.GetIdentity(a).Inviter; inv != nil && inv.Address == w.God.Addr {
+						linked++
+						if godExit[w] < 0 && !st.GetIdentityState(w.God.Addr).NewbieOrBetter() && st.GetIdentityState(a) == state.Candidate {
+							stale++
+						}
+					}
+				}
+				evid.Count(fmt.Sprintf("setup.god_invitees_linked=%d_of_%d.god_state=%d", linked, len(gi), st.GetIdentityState(w.God.Addr)))
+				if stale > 0 {
+					evid.Count("setup.candidate_still_names_a_terminated_inviter")
 				}
 			}
 			el := w.Eligible()
@@ -142,6 +220,22 @@ func TestOnlySignerPays(t *testing.T) {
 				if rapid.IntRange(0, 2).Draw(t, "craftedPair") == 0 && info.Sender != nil && info.Hostile == "" {
 					sequentialValidity(t, w, with, tx, info)
 				}
+				// an object built inside the node (RPC, own code) may carry money fields below zero (the wire drops the sign):
+				// one experiment in ten gives the generated transaction a negative amount that tips or max fee make up for
+				if info.Sender != nil && info.Hostile == "" && rapid.IntRange(0, 9).Draw(t, "negativeMoneyField") == 0 {
+					c := &types.Transaction{Type: tx.Type, AccountNonce: tx.AccountNonce, Epoch: tx.Epoch, To: tx.To, MaxFee: tx.MaxFee, Tips: tx.Tips, Payload: tx.Payload}
+					neg := new(big.Int).Neg(sim.Dna(int64(rapid.IntRange(1, 400).Draw(t, "negativeAmount"))))
+					c.Amount = neg
+					if rapid.Bool().Draw(t, "compensatedByTips") {
+						c.Tips = new(big.Int).Neg(neg)
+					} else {
+						c.MaxFee = new(big.Int).Add(new(big.Int).Neg(neg), tx.MaxFeeOrZero())
+					}
+					if signed, err := types.SignTx(c, info.Sender.Key); err == nil {
+						tx, info.Hostile = signed, "negative-amount"
+						evid.Count("tx.negative_amount." + sim.TxTypeNames[tx.Type])
+					}
+				}
 				// the signer may have spent (nearly) everything it owns earlier in the same block: a payment of its own
 				// with the nonce of tx goes first, tx follows with the next nonce and a drawn max fee
 				var drain *types.Transaction
@@ -175,7 +269,7 @@ func TestOnlySignerPays(t *testing.T) {
 				// sender recovery: the signer the node attributes a received transaction to is the address whose key signed
 				// exactly this content
 				if got, err := types.Sender(sim.WireCopyTx(tx)); err == nil {
-					if want, werr := sim.TrueSigner(tx); werr != nil || got != want {
+					if want, werr := sim.TrueSigner(sim.WireCopyTx(tx)); werr != nil || got != want {
 						t.Fatalf("the node attributes a %s tx (hostile=%q) to %s, but its signature over this content recovers to %s (%v): the funds of somebody who did not sign it are at stake", sim.TxTypeNames[tx.Type], info.Hostile, w.Name(got), w.Name(want), werr)
 					}
 				}
@@ -251,8 +345,19 @@ func TestOnlySignerPays(t *testing.T) {
 					if x.To != nil {
 						switch x.Type {
 						case types.KillInviteeTx:
+							// the relation is recorded on both sides; a signer whose own record does not list the target
+							// (it terminated itself and released its invitees) has no invitee to terminate
 							if inv := pre.State.GetIdentity(*x.To).Inviter; inv != nil && inv.Address == xs {
-								allowed[*x.To] = "own invitee"
+								// (an invitation that was not activated yet is recorded at the invited address only)
+								listed := pre.State.GetIdentity(*x.To).State == state.Invite
+								for _, i := range pre.State.GetIdentity(xs).Invitees {
+									listed = listed || i.Address == *x.To
+								}
+								if listed {
+									allowed[*x.To] = "own invitee"
+								} else {
+									evid.Count("relation.inviter_record_without_invitee_entry")
+								}
 							}
 						case types.KillDelegatorTx:
 							idTo := pre.State.GetIdentity(*x.To)
